@@ -54,6 +54,7 @@ class Rec:
         self.n = 0
         self.fuel_left = 0
         self.journal = []
+        self.kept = []  # closures handed out by their defining functions, to be called later by the driver
 
     def _t(self, v):
         return self.typer(v) if self.typer else None
